@@ -185,7 +185,7 @@ def extract(scope='lib', overlay=None, force=False):
 
 def merge(out):
     t0 = time.time()
-    F = {}; K = {}; calls = []; W = []; G = []; T = []; S = []; CC = []; SL = []; MP = []; IND = []; NEW = []; DEL = []; TB = {}; GV = {}
+    F = {}; K = {}; calls = []; W = []; G = []; T = []; S = []; CC = []; SL = []; MP = []; IND = []; NEW = []; DEL = []; TB = {}; GV = {}; EN = []
     nerr = 0
     for fn in sorted(glob.glob(os.path.join(out, '*.facts.jsonl'))):
         with open(fn) as fh:
@@ -212,6 +212,7 @@ def merge(out):
                 elif t == 'DEL': DEL.append(o)
                 elif t == 'TB': TB[o['table']] = o
                 elif t == 'GV': GV[o['var']] = o
+                elif t == 'EN': EN.append(o)
                 elif t == 'U': nerr += o['errors']
 
     def dedupe(lst, keyf):
@@ -245,7 +246,7 @@ def merge(out):
                 idx[head['usr']] = (os.path.basename(fn), off, len(l))
                 byname[head['name']].append(head['usr'])
                 off += len(l)
-    D = dict(F=F, K=K, calls=calls, W=W, G=G, T=T, S=S, CC=CC, SL=SL, MP=MP, IND=IND, NEW=NEW, DEL=DEL, TB=TB, GV=GV,
+    D = dict(F=F, K=K, calls=calls, W=W, G=G, T=T, S=S, CC=CC, SL=SL, MP=MP, IND=IND, NEW=NEW, DEL=DEL, TB=TB, GV=GV, EN=EN,
              astidx=idx, astbyname=dict(byname), parse_errors=nerr)
     with open(os.path.join(out, 'facts.pkl'), 'wb') as f:
         pickle.dump(D, f, protocol=4)
